@@ -80,3 +80,13 @@ def relclose(a, b, rel=1e-9):
     if not (math.isfinite(a) and math.isfinite(b)):
         return False
     return abs(a - b) <= rel * max(abs(a), abs(b))
+
+
+def log_mag_of(um, q, value):
+    """(sign, log10 |magnitude in base units|) without intermediate overflow/underflow; None for zero/non-finite"""
+    if value == 0 or not math.isfinite(value):
+        return None
+    lg = math.log10(abs(value))
+    for unit, exp in q.GetComposingUnitsJoiningExponents():
+        lg += exp * math.log10(um.slope[unit])
+    return (1 if value > 0 else -1, lg)
